@@ -23,7 +23,10 @@ EXTENDS Integers, Sequences, FiniteSets, TLC, Json, SequencesExt, FiniteSetsExt
 CONSTANTS Streams, Callers, MaxFaults, MaxDialFails, MaxResumeNg, WatcherByEpoch, HookCurrent, SwapGuarded, SupervisorOrClosed, RetryByEpoch, AllowClose,
           EpochBeforeResume,   \* TRUE = the stream records the reconnect epoch before it reads c.wireConn and starts the resume exchange (as coded);
                                \* FALSE = after the resume response (a variant that misses an outage decided during the exchange)
-          HalfBroken           \* TRUE = the environment may also break only the write direction of a link (writes fail, reads are still delivered)
+          HalfBroken,          \* TRUE = the environment may also break only the write direction of a link (writes fail, reads are still delivered)
+          HandlerCloses,       \* TRUE = the application's Disconnected handler (it runs on the connection's main goroutine) calls Conn.Close itself
+          CloseJoinsMain       \* FALSE as coded: Close returns once the Disconnect is out; TRUE = Close additionally waits for the main goroutine
+                               \* to end (a variant that deadlocks when a handler closes: the goroutine waits for itself)
 
 VARIABLES s, script
 vars == <<s, script>>
@@ -85,7 +88,12 @@ RunExitsErr ==
 \* run() returns nil because the status is Closed: the loop ends; OnDisconnected fires once more
 RunExitsClosed ==
     /\ s.main = "run" /\ s.cs = "closed"
-    /\ s' = [s EXCEPT !.main = "dead", !.disc = @ + 1]
+    /\ s' = [s EXCEPT !.main = IF HandlerCloses THEN "hclose" ELSE "dead", !.disc = @ + 1]
+    /\ Quiet
+\* the handler's own Close on the closed connection: returns at once as coded; with CloseJoinsMain it waits for main = "dead" - for itself
+HandlerClose ==
+    /\ s.main = "hclose" /\ ~CloseJoinsMain
+    /\ s' = [s EXCEPT !.main = "dead"]
     /\ Quiet
 \* reconnect(): take wireConnMu, CompareAndSwapNot(Closed, Reconnecting), close the old wire connection
 RecLock ==
@@ -214,11 +222,18 @@ CloseLock ==
 \* SendDisconnect on c.wireConn, then close it
 CloseDisc ==
     /\ s.cl = "disc"
-    /\ s' = [s EXCEPT !.mu = "none", !.cl = "done", !.closeRet = TRUE, !.wclosed = @ \cup {s.inc},
+    /\ s' = [s EXCEPT !.mu = "none", !.cl = IF CloseJoinsMain THEN "join" ELSE "done", !.closeRet = ~CloseJoinsMain, !.wclosed = @ \cup {s.inc},
                       !.disconnectSent = IF s.alive /\ s.inc \notin s.wclosed THEN @ \cup {s.inc} ELSE @]
     /\ Quiet
 
+\* variant: Close returns only after the main goroutine has ended
+CloseJoin ==
+    /\ s.cl = "join" /\ s.main = "dead"
+    /\ s' = [s EXCEPT !.cl = "done", !.closeRet = TRUE]
+    /\ Quiet
+
 Next ==
+    \/ HandlerClose \/ CloseJoin
     \/ LinkDown \/ WriteBreaks \/ WireSelfClose \/ RunExitsErr \/ RunExitsClosed \/ RecLock \/ DialOk \/ DialFail \/ RecSwap \/ Notify
     \/ \E y \in Streams : WatchCheck(y) \/ WaitConnCheck(y) \/ ResumeOk(y) \/ ResumeNg(y) \/ ResumeCut(y)
     \/ \E p \in Callers : ApiCall(p) \/ SendWaitCheck(p) \/ SendCtxDone(p) \/ SendLock(p) \/ SendOk(p) \/ SendFailsClosed(p) \/ SendFailsDead(p) \/ SendRetry(p)
@@ -248,6 +263,8 @@ NoDialAfterClose == s.dialsAfterClose = 0
 NoCallerParkedWhenClosed == \A p \in Callers : ~(s.cs = "closed" /\ s.ca[p].pc = "waitConn" /\ s.ca[p].w = "parked")
 \* C10: no goroutine left behind: no stream supervisor parked forever on a Closed connection
 NoSupervisorParkedWhenClosed == \A y \in Streams : ~(s.cs = "closed" /\ s.st[y].pc = "waitConn" /\ s.st[y].w = "parked")
+\* C10: a Close issued from the Disconnected handler returns (and so does the user's Close): nobody waits for the goroutine it runs on
+NoSelfJoin == ~(s.main = "hclose" /\ CloseJoinsMain)
 \* C10: silence on the wire after Disconnect
 SilentAfterDisconnect == ~s.sentAfterDisconnect
 
